@@ -130,3 +130,22 @@ def _():
 def _():
     a = np.array([[4294967295, 0, 5], [4294967295, 0, 0]], dtype=np.int64)
     return _ne(ndx.min(ndx.asarray(a)).to_numpy(), a.min())
+
+
+# ---------------------------------------------------------------- C01 / C06: onnxruntime's graph optimiser removes Add(x, 0)
+def _add_zero_negative_zero():
+    from . import impl
+    x = ndx.array(shape=("N",), dtype=ndx.float32)
+    y = x + 0
+    got = impl.run_model(ndx.build({"x": x}, {"y": y}), {"x": np.array([-0.0], dtype=np.float32)}, {"y": y})["y"]
+    return bool(np.signbit(got[0]))
+
+
+@witness("C01", "add/*/only-sign-of-zero-differs")
+def _():
+    return _add_zero_negative_zero()
+
+
+@witness("C06", "add/*/only-sign-of-zero-differs")
+def _():
+    return _add_zero_negative_zero()
